@@ -50,7 +50,7 @@ fn linearizable(ops: &[LOp], init: Option<Id>) -> bool {
             let mut cands: Vec<(Option<Id>, bool)> = Vec::new();
             let ensure = o.kind == PKind::Ensure && o.stacked;
             match (o.kind, ensure) {
-                (PKind::Set, _) | (PKind::Replace, _) => {
+                (PKind::Set, _) | (PKind::Replace, _) | (PKind::SetOtherFs, _) => {
                     if o.failed {
                         cands.push((reg, true));
                     }
@@ -152,7 +152,7 @@ pub fn judge_exec(l: &Layout, ex: &ExecOut) -> Result<(bool, u32), (String, Stri
         };
         ops.push(LOp { call: h.call_seq, ret: h.ret_seq, kind: h.pop.kind, v: h.val.as_ref().map(id_of).unwrap_or((0, 0)), obs, failed, stacked: l.kind >= 2 });
     }
-    let overlap = ops.iter().enumerate().any(|(i, a)| ops.iter().enumerate().any(|(j, b)| i != j && a.call < b.ret && b.call < a.ret && (matches!(a.kind, PKind::Set | PKind::Put | PKind::Ensure) || matches!(b.kind, PKind::Set | PKind::Put | PKind::Ensure))));
+    let overlap = ops.iter().enumerate().any(|(i, a)| ops.iter().enumerate().any(|(j, b)| i != j && a.call < b.ret && b.call < a.ret && (matches!(a.kind, PKind::Set | PKind::Put | PKind::Ensure | PKind::SetOtherFs) || matches!(b.kind, PKind::Set | PKind::Put | PKind::Ensure | PKind::SetOtherFs))));
     if linearizable(&ops, init) {
         Ok((overlap, errors))
     } else {
@@ -163,7 +163,9 @@ pub fn judge_exec(l: &Layout, ex: &ExecOut) -> Result<(bool, u32), (String, Stri
 
 fn op_kinds(layout_kind: u8) -> Vec<PKind> {
     // (RawPut = the public raw layer's insert_or_touch, without the front-end's single retry)
-    let mut v = vec![PKind::Set, PKind::Put, PKind::Get, PKind::Get, PKind::Touch, PKind::RawPut];
+    // (SetOtherFs = a set whose value was staged on another filesystem: it may fail, but if it reports
+    // success it is a set like any other)
+    let mut v = vec![PKind::Set, PKind::Put, PKind::Get, PKind::Get, PKind::Touch, PKind::RawPut, PKind::SetOtherFs];
     if layout_kind >= 2 {
         v.push(PKind::Ensure);
         v.push(PKind::Ensure);
